@@ -41,6 +41,14 @@ class Check(PropertyCheck):
                     cs[self.rng.choice(pos)] = "\t"
             out.append("".join(cs))
         out += [gen.zoo(self.rng, legend=False, quotes=False) for _ in range(max(5, n // 3))]   # quoted texts are outside the canvas computation (known finding of C12)
+        # quoted labels (also opening in the first column); a drawing made of quoted texts only keeps the minimal
+        # canvas wherever it is (known finding of C12), so only drawings with at least one drawn cell are moved
+        import props.c15 as c15
+        q = ['"a|b-+"\n------', '"x" |\n"-" +--', '+--+\n|"q"|\n+--+', '"一" -']
+        q += [gen.zoo(self.rng, legend=False) for _ in range(max(5, n // 4))]
+        for t in q:
+            if '"' in t and c15.blank_text(t, {})[0].strip():
+                out.append(t)
         return [t for t in out if "# Legend:" not in t]
 
     def offsets(self):
@@ -112,6 +120,11 @@ class Check(PropertyCheck):
             items.append((t, k, n))
         fails = self.oracle(items)
         return fails
+
+    def oracle_on_texts(self, texts):
+        import props.c15 as c15
+        ts = [t for t in texts if "# Legend:" not in t and c15.blank_text(t, {})[0].strip()]
+        return self.oracle([(t, 1, 0) for t in ts] + [(t, 3, 2) for t in ts])
 
     def replay_case(self, case):
         return self.oracle([(case["input"], case["k"], case["n"])])
